@@ -92,6 +92,11 @@ func New(id string) *Check {
 		}
 		if json.Unmarshal(b, &f) == nil {
 			c.findings = f.Findings
+			for _, kf := range f.Findings {
+				if kf.Property == c.ID && kf.Status == "known" && kf.Key != "" {
+					explore.KnownKeys[kf.Key] = true
+				}
+			}
 		}
 	}
 	return c
